@@ -91,7 +91,7 @@ def no_strong_across_select(run, lc):
         return
     y = ys[0]
     yspan = b.blocks[y].term.get("layout_span", b.blocks[y].term["span"])
-    variants = [v for v in b.layout["variants"] if v["span"] == yspan]
+    variants = b.layout_variants_at(b.blocks[y].term)
     if not run.require(len(variants) == 1, "O7.1", "select-layout-variant", "no coroutine-layout variant for the select! suspension point", "layout variant found"):
         return
     saved = [b.layout["saved"][i] for i in variants[0]["fields"]]
